@@ -165,3 +165,61 @@ ENGINES.append(dict(name='fault', path='engines/fault', serves_properties=['C18'
 LEVEL_TEXT['C18'] = 'For every listed scenario the finite space of single-allocation failures (index k, once / from k on) is enumerated completely in the thorough tier; each run is checked for crash, leak and damage against a per-scenario model.'
 LEVEL_NOTE['C18'] = 'Trusted: scenario table coverage of entry points (listed in the evidence), ASan/UBSan, tracking allocator and /proc census. Quick tier runs a third of the generated windows.'
 TECHNIQUE['C18'] = 'fault-injection enumeration (failing allocator via p_mem_set_vtable) over hand-listed and generated call sequences, model-based oracle, ASan'
+
+# ---- dsched harness binaries (one per library configuration) -------------------------------------
+for _a in ('c11', 'sync', 'sim'):
+    for _r in ('posix', 'general'):
+        harness('dsched_%s_%s' % (_a, _r), 'engines/dsched/dsched.cpp', 'dsched-%s-%s' % (_a, _r))
+
+_dsched_assume = [
+    'execution under the scheduler is serialised and sequentially consistent: interleavings are explored at the granularity of schedule points (every redirected pthread call, every basic block of patomic-*/pspinlock-*, harness points); hardware reordering is not modelled',
+    'the pthread primitives behind the library are a model owned by the scheduler (mutex, condition variable with optional spurious wake-ups, permissive rwlock grant rule); library objects are compiled from /repo/src and retargeted with objcopy --redefine-syms',
+    'a case that exceeds the step bound or the 30 s watchdog is inconclusive, never a violation',
+]
+def _dsubs(configs, quick_cases, thorough_cases, exh=True):
+    subs = []
+    for cfg in configs:
+        h = 'dsched_' + cfg
+        if exh:
+            subs.append(Sub('exh_' + cfg, h, shards=(2, 4), cases=(1, 1), env={'VERIF_SUB': 'exh'}, timeout=(900, 3600)))
+        subs.append(Sub('rand_' + cfg, h, shards=(3, 6), cases=(quick_cases, thorough_cases), maxsize=(60, 100), env={'VERIF_SUB': 'rand'}, timeout=(900, 3600)))
+    return subs
+
+reg(Prop('C01', 'exploration', _dsubs(['c11_posix', 'sync_posix', 'sim_posix'], 400, 8000),
+    rule='lock programs: 2-4 threads x rounds of lock / trylock / unlock (one nesting level via trylock) over 1-3 locks of kind mutex|spinlock, generated with a schedule vector; executed under the deterministic scheduler for each '
+         'atomic/spinlock model (c11, sync, sim). Bounded-exhaustive sub-run: every schedule with <= 2 (thorough 3) preemptions in the first 28 (40) points of 4 shaped programs. Oracle: shadow holder count never > 1 (checked at every schedule point), '
+         'non-atomic protected record (counter + checksum) consistent inside every section and counter == sections executed, trylock FALSE only if the lock was held or contended during the call, TRUE never while held, no deadlock. '
+         'Non-trivial = some acquisition found the lock held or contended and >= 2 threads executed sections on one lock; distinct = distinct executed trace (thread switch sequence) hash.',
+    assumptions=_dsched_assume + ['the visibility clause is decided here only as far as a sequentially consistent execution can show it (lost/torn updates); weak-memory effects need the real-thread TSan runs'],
+    corpus_harness='dsched_c11_posix', design_ref='4/C01, 3.1'))
+reg(Prop('C02', 'exploration', _dsubs(['c11_general', 'c11_posix', 'sim_general'], 500, 10000),
+    rule='rw programs: 2-4 threads x rounds of reader/writer lock|trylock + unlock over 1-2 rwlocks, optional rendezvous barrier inside read sections (only on locks without writers), schedule vector with optional spurious condition-variable wake-ups; '
+         'both implementations (general mutex+condvar model, native pthread model with a permissive grant rule). Bounded-exhaustive sub-run over 6 shaped programs. Oracle: shadow (readers, writers) invariant at every schedule point, trylock TRUE only when grantable and TRUE on a free uncontended lock, '
+         'trylock never parks, protected record consistent, every program terminates (deadlock = enabled set empty is exact). Non-trivial = reader and writer rounds on one lock and >= 1 thread actually waited inside a lock call; distinct = distinct executed trace hash.',
+    assumptions=_dsched_assume + ['starvation/fairness is not a violation; which waiter a signal wakes is a schedule choice'],
+    corpus_harness='dsched_c11_general', design_ref='4/C02, 3.1'))
+reg(Prop('C03', 'exploration', _dsubs(['c11_posix'], 1200, 20000),
+    rule='condition-variable programs: bounded buffer (capacity 1-3, 1-3 producers x items, 1-3 consumers, signal or broadcast per wake-up site) and gate (2-4 waiters, one broadcast or W signals), predicate loops under the mutex, schedule vector with spurious wake-ups. '
+         'Oracle: the model rejects a wait whose mutex argument is not the caller-held native mutex; wait releases+parks atomically and returns with the mutex held (shadow section holder); consumed multiset == produced, per-producer order; all threads terminate. '
+         'Non-trivial = >= 2 threads waiting on one condition variable at once and >= 1 wake-up issued while waiters exist; distinct = distinct executed trace hash.',
+    assumptions=_dsched_assume, corpus_harness='dsched_c11_posix', design_ref='4/C03, 3.1'))
+reg(Prop('C04', 'exploration', _dsubs(['c11_posix', 'sync_posix', 'sim_posix'], 500, 10000),
+    rule='atomic histories: 2-3 threads x up to 4 operations (inc, dec_and_test, add, and, or, xor, compare_and_exchange, get, set; int and pointer width; operands from sign/wrap boundaries) on one shared word, schedule vector; for each atomic model. '
+         'Oracle: exact linearizability - a search for a sequential order (respecting program order) in which every returned value, every dec_and_test/CAS result and the final value follow 32-bit / pointer-width wrapping C arithmetic. '
+         'Non-trivial = >= 2 threads and >= 1 preemption inside the history; distinct = distinct executed trace hash.',
+    assumptions=_dsched_assume + ['lock-free bodies (c11, sync) are single instructions between schedule points: splitting one inside a basic block is visible only to the real-thread stress sub-checks'],
+    corpus_harness='dsched_c11_posix', design_ref='4/C04, 3.1'))
+reg(Prop('C05', 'exploration', _dsubs(['sim_posix', 'c11_posix'], 500, 10000),
+    rule='thread programs: main creates 1-3 threads (joinable|detached, NULL/short/long name, return or p_uthread_exit(code) with boundary codes) whose bodies do TLS set/replace/get on 1-3 keys (with/without notifier), current(), ref/unref, yield; '
+         'main does ref/unref/join in generated order consistent with the ownership model; schedule vector over every atomic operation (sim model: each atomic is a mutex-protected step). '
+         'Oracle: join returns only after the body finished, with the exit code, and sees the thread\'s plain write; notifier exactly once for replaced values and values left at exit, never for set_local, never for another thread\'s value; get returns the caller\'s value; no deadlock. '
+         'Non-trivial = the trace contains a rare order (thread ran before create returned, main dropped its last reference before the thread started, unref overlapping the running thread); distinct = distinct executed trace hash.',
+    assumptions=_dsched_assume + ['handle lifetime (freed exactly once) is observed by ASan-free builds only through the model here; C20 accounts the blocks'],
+    corpus_harness='dsched_sim_posix', design_ref='4/C05, 3.1'))
+ENGINES.append(dict(name='dsched', path='engines/dsched', serves_properties=['C01', 'C02', 'C03', 'C04', 'C05'],
+                    kind_free_text='deterministic cooperative scheduler over modelled pthreads: generated programs + generated schedule vectors (stateful PBT over interleavings), fork per case, bounded-exhaustive preemption enumeration'))
+for _p, _t in (('C01', 'mutual exclusion, lost-update and trylock oracles'), ('C02', 'reader/writer exclusion, trylock and deadlock-freedom oracles'), ('C03', 'atomic release-and-wait, wake-up and exchange-completeness oracles'),
+               ('C04', 'exact linearizability search'), ('C05', 'join/exit-code, TLS notifier and ownership-model oracles')):
+    LEVEL_TEXT[_p] = 'Generated multi-threaded programs executed under a deterministic scheduler whose schedule vector is generated data (random and bounded-exhaustive over preemptions); ' + _t + '. Explores interleavings the OS scheduler would never produce; says nothing beyond the programs/schedules explored.'
+    LEVEL_NOTE[_p] = 'Trusted: the scheduler and its pthread model (engines/dsched/vsched.h), the harness oracles. Sequentially consistent execution only.'
+    TECHNIQUE[_p] = 'property-based testing over generated programs and generated schedules (deterministic scheduler, rapidcheck) + bounded-exhaustive preemption enumeration'
